@@ -298,6 +298,61 @@ func c11Families(thorough bool) []*engine.IFamily {
 				if now := world.JSON(s); now != photo {
 					fail("use-case data obtained from a remote device changed after a later reply", fmt.Sprintf("photo=%s\n now=%s", photo, now))
 				}
+				// use-case data whose addresses come without device part (legal): everything obtained before — the data
+				// of the data-change event, DataCopy of the remote node-management feature, an earlier UseCases() result —
+				// stays as it is when the getters are used again and when a later reply arrives
+				for _, withDev := range []bool{false, true} {
+					u := newUCWorldEv(true)
+					a := u.w.Peers["A"]
+					mk := func(avail bool) model.DatagramType {
+						d := &model.NodeManagementUseCaseDataType{}
+						addr := *world.FAddr("dA", []uint{1}, 0)
+						if !withDev {
+							addr.Device = nil
+						}
+						d.AddUseCaseSupport(addr, model.UseCaseActorTypeCEM, ucNames["u1"], "1.0.0", "r", avail, scenList("12"))
+						return a.Datagram(a.NM(), world.LocalNM(), model.CmdClassifierTypeReply, false, ptrCtr(3), model.CmdType{NodeManagementUseCaseData: d})
+					}
+					m := u.w.Mark()
+					a.Deliver(mk(true))
+					rt.WaitIdle()
+					type snp struct {
+						what  string
+						obj   any
+						photo string
+					}
+					var snaps []snp
+					take := func(what string, o any) {
+						if o != nil {
+							snaps = append(snaps, snp{what, o, world.JSON(o)})
+						}
+					}
+					for _, e := range u.w.EventsSince(m) {
+						if e.Data != nil {
+							take("the data of the event published for a use-case reply", e.Data)
+						}
+					}
+					if nmR := a.Dev.FeatureByEntityTypeAndRole(a.Dev.Entity([]model.AddressEntityType{0}), model.FeatureTypeTypeNodeManagement, model.RoleTypeSpecial); nmR != nil {
+						take("DataCopy of the remote node-management use-case data", nmR.DataCopy(model.FunctionTypeNodeManagementUseCaseData))
+					}
+					take("the result of DeviceRemote.UseCases", a.Dev.UseCases())
+					for step := 0; step < 3; step++ {
+						switch step {
+						case 0, 2:
+							_ = a.Dev.UseCases()
+						case 1:
+							a.Deliver(mk(false))
+							rt.WaitIdle()
+						}
+						r.Evals++
+						r.Nontrivial++
+						for _, sn := range snaps {
+							if now := world.JSON(sn.obj); now != sn.photo {
+								fail(sn.what+" changed afterwards", fmt.Sprintf("address with device part=%v step=%d\n photo=%s\n now=%s", withDev, step, sn.photo, now))
+							}
+						}
+					}
+				}
 			})
 			return r
 		}}
